@@ -26,6 +26,7 @@ func checkC16(c *Ctx) {
 	c.Rule("C16/R8", "digit order: wherever a renderer writes a number digit by digit (footnote marks, spreadsheet column names), digits peeled off least-significant first are stored from the end of the buffer backwards, or the buffer is reversed afterwards")
 	c.Rule("C16/R9", "CSV cell references: a closure of ToCSV that derives a cell reference from the length of the row under assembly is called, inside the column loops, only after the padding closure on every path of the iteration; and no value is appended to the row after a conditionally appended one of the same iteration without a padding call in between")
 	c.Rule("C16/R10", "rows and records stay in step: in the CSV renderers every csv.Writer.Write is followed on every path by an increment of the shared row counter")
+	c.Rule("C16/R11", "a spanning cell gets room: from the test that finds the spanned columns too narrow for the cell, every path to the next cell stores into the widths table — with the work list of columns that may grow tracked as empty / non-empty along the path, so that 'every column under the cell is a shrink column' is a path of its own")
 	c.Rule("C16/R7", "shrink marks stay inside the table built so far: every column index passed to SetShrink is below the layout's current column on the path that reaches the call")
 	p := mustLoad(c, loadOpts{}, "./"+ttabRel, "./"+btabRel, "./benchproc", "./benchmath", "./benchfmt", "./benchunit")
 	c16Margins(c, p)
@@ -38,6 +39,7 @@ func checkC16(c *Ctx) {
 	c16Digits(c, p)
 	c16CSVRefs(c, p)
 	c16CSVRows(c, p)
+	c16SpanFits(c, p)
 }
 
 // c16CSVRows (C16/R10): warnings name spreadsheet rows, so the row counter and the records written must stay in step: in
@@ -1188,4 +1190,358 @@ func c16WithTableMethods(fn *ssa.Function) []*ssa.Function {
 		}
 	})
 	return out
+}
+
+// c16SpanFits (C16/R11): a cell that spans several columns and is wider than they are together must make some column
+// grow. The layout decides "wider than its columns" by comparing the cell's width with the sum of the widths table over
+// the span; from the "needs room" side of that test, every path back to the loop over the cells must store into the
+// widths table. Paths are explored with one piece of state — whether the work list of columns that may grow (a list
+// emptied and then filled by appends) is known empty, known non-empty or unknown: a test of its length is answered
+// from the state, a loop over it runs at least once when it is non-empty and not at all when it is empty, and a counted
+// loop over the cell's own span runs at least once (spans are positive). A path that reaches the next cell without
+// having stored a width is a cell that overflows its columns and shifts everything after it on its line.
+func c16SpanFits(c *Ctx, p *Prog) {
+	const R = "C16/R11"
+	n := 0
+	for _, fn := range p.Funcs(ttabRel) {
+		if fn.Blocks == nil {
+			continue
+		}
+		loops := naturalLoops(fn)
+		// the anchor: if sum >= w (or w <= sum, sum < w, ...) with sum a loop phi accumulating elements of an []int
+		for _, b := range fn.Blocks {
+			ifi, ok := b.Instrs[len(b.Instrs)-1].(*ssa.If)
+			if !ok {
+				continue
+			}
+			cmp, ok := ifi.Cond.(*ssa.BinOp)
+			if !ok {
+				continue
+			}
+			var table ssa.Value // the widths table: the slice, or the cell holding it
+			sumOnLeft := false
+			for side, v := range []ssa.Value{cmp.X, cmp.Y} {
+				phi, ok := v.(*ssa.Phi)
+				if !ok || !isInteger(phi.Type()) {
+					continue
+				}
+				for _, e := range phi.Edges {
+					add, ok := e.(*ssa.BinOp)
+					if !ok || add.Op != token.ADD || (add.X != ssa.Value(phi) && add.Y != ssa.Value(phi)) {
+						continue
+					}
+					other := add.Y
+					if add.Y == ssa.Value(phi) {
+						other = add.X
+					}
+					if ia, ok := loadAddr(other).(*ssa.IndexAddr); ok {
+						if st, ok := ia.X.Type().Underlying().(*types.Slice); ok && isInteger(st.Elem()) {
+							table = ia.X
+							if la := loadAddr(ia.X); la != nil {
+								table = la
+							}
+							sumOnLeft = side == 0
+						}
+					}
+				}
+			}
+			if table == nil {
+				continue
+			}
+			// which successor is "the columns are too narrow": sum < w
+			var needs *ssa.BasicBlock
+			op := cmp.Op
+			if !sumOnLeft {
+				switch op {
+				case token.LSS:
+					op = token.GTR
+				case token.GTR:
+					op = token.LSS
+				case token.LEQ:
+					op = token.GEQ
+				case token.GEQ:
+					op = token.LEQ
+				}
+			}
+			switch op {
+			case token.GEQ: // sum >= w: enough
+				needs = b.Succs[1]
+			case token.LSS: // sum < w: too narrow
+				needs = b.Succs[0]
+			default:
+				continue
+			}
+			// the loop over the cells: the innermost loop that contains the test and the needs-room successor
+			var cells *loopInfo
+			for _, l := range loops {
+				if l.Blocks[b] && l.Blocks[needs] && (cells == nil || len(l.Blocks) < len(cells.Blocks)) {
+					cells = l
+				}
+			}
+			if cells == nil {
+				continue
+			}
+			n++
+			key := fmt.Sprintf("%s:span-gets-room#%d", fnName(fn), n)
+			ok2, why := c16GrowsOnEveryPath(fn, loops, cells, needs, table)
+			switch {
+			case why != "":
+				c.Undecided(R, key, p.pos(cmp.Pos()), why)
+			case ok2:
+				c.OK(R, key, p.pos(cmp.Pos()), "from 'the spanned columns are too narrow' every path to the next cell widens a column")
+			default:
+				c.Bad(R, key, p.pos(cmp.Pos()), "a spanning cell that is wider than its columns can reach the next cell without any column having been widened: the list of columns allowed to grow may be empty (every column under the cell is a shrink column) and nothing handles that, so the cell's text runs past its columns and everything after it on that line — the header rule included — is shifted out of its column")
+			}
+		}
+	}
+	c.Floor(R, "spanning-cell width tests in the layout", n, 1)
+}
+
+// c16GrowsOnEveryPath: see c16SpanFits.
+func c16GrowsOnEveryPath(fn *ssa.Function, loops []*loopInfo, cells *loopInfo, start *ssa.BasicBlock, table ssa.Value) (bool, string) {
+	isTable := func(v ssa.Value) bool {
+		if v == table {
+			return true
+		}
+		if la := loadAddr(v); la != nil && la == table {
+			return true
+		}
+		return false
+	}
+	storesWidth := func(b *ssa.BasicBlock) bool {
+		for _, in := range b.Instrs {
+			if st, ok := in.(*ssa.Store); ok {
+				if ia, ok := st.Addr.(*ssa.IndexAddr); ok && isTable(ia.X) {
+					return true
+				}
+			}
+		}
+		return false
+	}
+	// the work list: a local []int cell that is stored an emptied slice (x[:0] or nil) inside the cells loop
+	var list *ssa.Alloc
+	for b := range cells.Blocks {
+		for _, in := range b.Instrs {
+			st, ok := in.(*ssa.Store)
+			if !ok {
+				continue
+			}
+			al, ok := st.Addr.(*ssa.Alloc)
+			if !ok {
+				continue
+			}
+			if sl, ok := st.Val.(*ssa.Slice); ok && sl.Low == nil && sl.High != nil {
+				if k, ok := constInt(sl.High); ok && k == 0 {
+					list = al
+				}
+			}
+			if k, ok := st.Val.(*ssa.Const); ok && k.IsNil() {
+				if _, isSl := al.Type().(*types.Pointer).Elem().Underlying().(*types.Slice); isSl {
+					list = al
+				}
+			}
+		}
+	}
+	isList := func(v ssa.Value) bool {
+		return list != nil && loadAddr(v) == ssa.Value(list)
+	}
+	isLenOfList := func(v ssa.Value) bool {
+		call, ok := v.(*ssa.Call)
+		if !ok {
+			return false
+		}
+		bi, ok := call.Call.Value.(*ssa.Builtin)
+		return ok && bi.Name() == "len" && isList(call.Call.Args[0])
+	}
+	headerOf := map[*ssa.BasicBlock]*loopInfo{}
+	for _, l := range loops {
+		if l != cells && cells.Blocks[l.Header] {
+			headerOf[l.Header] = l
+		}
+	}
+	// spanLoop: header test idx < F1 + F2 with both loaded from fields of one struct cell (the cell's column and span)
+	isFieldLoad := func(v ssa.Value) bool {
+		f, _ := loadOfField(v)
+		return f != nil
+	}
+	spanLoop := func(h *ssa.BasicBlock) bool {
+		ifi, ok := h.Instrs[len(h.Instrs)-1].(*ssa.If)
+		if !ok {
+			return false
+		}
+		cmp, ok := ifi.Cond.(*ssa.BinOp)
+		if !ok || cmp.Op != token.LSS {
+			return false
+		}
+		add, ok := cmp.Y.(*ssa.BinOp)
+		return ok && add.Op == token.ADD && isFieldLoad(add.X) && isFieldLoad(add.Y)
+	}
+	// listLoop: header test idx < len(list) (the length may have been taken before the loop)
+	listLoop := func(h *ssa.BasicBlock) bool {
+		ifi, ok := h.Instrs[len(h.Instrs)-1].(*ssa.If)
+		if !ok {
+			return false
+		}
+		cmp, ok := ifi.Cond.(*ssa.BinOp)
+		return ok && cmp.Op == token.LSS && isLenOfList(cmp.Y)
+	}
+	const (
+		unknown = iota
+		empty
+		nonEmpty
+	)
+	type state struct {
+		b      *ssa.BasicBlock
+		list   int
+		stored bool
+	}
+	type key struct {
+		b      *ssa.BasicBlock
+		list   int
+		stored bool
+		seen   string
+	}
+	bad := false
+	steps := 0
+	visited := map[key]bool{}
+	var walk func(s state, iter map[*ssa.BasicBlock]int)
+	walk = func(s state, iter map[*ssa.BasicBlock]int) {
+		if bad || steps > 200000 {
+			return
+		}
+		steps++
+		if s.b == cells.Header || !cells.Blocks[s.b] {
+			if !s.stored && s.b == cells.Header {
+				bad = true
+			}
+			return
+		}
+		var seen []string
+		for h, k := range iter {
+			seen = append(seen, fmt.Sprintf("%d:%d", h.Index, k))
+		}
+		sort.Strings(seen)
+		k := key{s.b, s.list, s.stored, strings.Join(seen, ",")}
+		if visited[k] {
+			return
+		}
+		visited[k] = true
+		// effects of the block
+		if storesWidth(s.b) {
+			s.stored = true
+		}
+		for _, in := range s.b.Instrs {
+			st, ok := in.(*ssa.Store)
+			if !ok || list == nil || st.Addr != ssa.Value(list) {
+				continue
+			}
+			switch v := st.Val.(type) {
+			case *ssa.Slice:
+				if k, ok := constInt(v.High); ok && k == 0 && v.Low == nil {
+					s.list = empty
+				} else {
+					s.list = unknown
+				}
+			case *ssa.Const:
+				s.list = empty
+			case *ssa.Call:
+				if bi, ok := v.Call.Value.(*ssa.Builtin); ok && bi.Name() == "append" && isList(v.Call.Args[0]) {
+					s.list = nonEmpty
+				} else {
+					s.list = unknown
+				}
+			default:
+				s.list = unknown
+			}
+		}
+		last := s.b.Instrs[len(s.b.Instrs)-1]
+		ifi, isIf := last.(*ssa.If)
+		if !isIf {
+			for _, nx := range s.b.Succs {
+				walk(state{nx, s.list, s.stored}, iter)
+			}
+			return
+		}
+		takeT, takeF := true, true
+		tList, fList := s.list, s.list
+		// a loop header: how many times may the body run
+		if lp, ok := headerOf[s.b]; ok {
+			visits := iter[s.b]
+			it2 := map[*ssa.BasicBlock]int{}
+			for h, k := range iter {
+				it2[h] = k
+			}
+			it2[s.b] = visits + 1
+			iter = it2
+			bodyOnT := lp.Blocks[s.b.Succs[0]]
+			mustEnter := visits == 0 && (spanLoop(s.b) || (listLoop(s.b) && s.list == nonEmpty))
+			mustSkip := visits >= 1 || (listLoop(s.b) && s.list == empty)
+			// (one iteration of every inner loop is enough to see whether a width is stored in it)
+			if mustEnter {
+				takeT, takeF = bodyOnT, !bodyOnT
+			} else if mustSkip {
+				takeT, takeF = !bodyOnT, bodyOnT
+			}
+		} else if cmp, ok := ifi.Cond.(*ssa.BinOp); ok {
+			// a test of the list's length against 0
+			var kk int64
+			var isK, lenLeft bool
+			if isLenOfList(cmp.X) {
+				kk, isK = constInt(cmp.Y)
+				lenLeft = true
+			} else if isLenOfList(cmp.Y) {
+				kk, isK = constInt(cmp.X)
+			}
+			if isK {
+				truth := func(n int64) bool {
+					a, b := n, kk
+					if !lenLeft {
+						a, b = kk, n
+					}
+					switch cmp.Op {
+					case token.EQL:
+						return a == b
+					case token.NEQ:
+						return a != b
+					case token.LSS:
+						return a < b
+					case token.LEQ:
+						return a <= b
+					case token.GTR:
+						return a > b
+					case token.GEQ:
+						return a >= b
+					}
+					return false
+				}
+				// the test separates "empty" from "not empty" when it answers 0 one way and 1, 2, 7 the other
+				if truth(0) != truth(1) && truth(1) == truth(2) && truth(2) == truth(7) {
+					emptyOnT := truth(0)
+					switch s.list {
+					case empty:
+						takeT, takeF = emptyOnT, !emptyOnT
+					case nonEmpty:
+						takeT, takeF = !emptyOnT, emptyOnT
+					default:
+						if emptyOnT {
+							tList, fList = empty, nonEmpty
+						} else {
+							tList, fList = nonEmpty, empty
+						}
+					}
+				}
+			}
+		}
+		if takeT {
+			walk(state{s.b.Succs[0], tList, s.stored}, iter)
+		}
+		if takeF {
+			walk(state{s.b.Succs[1], fList, s.stored}, iter)
+		}
+	}
+	walk(state{start, unknown, false}, map[*ssa.BasicBlock]int{})
+	if steps > 200000 {
+		return false, "too many paths through the width computation"
+	}
+	return !bad, ""
 }
